@@ -231,6 +231,34 @@ def run(ctx):
             ctx.oracle("no-secular-energy-drift", second <= 3 * first + 1e-12, dict(kind="energy", method=cls.__name__, hamiltonian=hname, ordering=ordering, first_half=first, second_half=second),
                        what="energy error grows: max %.2e in the first half, %.2e in the second half of the run" % (first, second))
             ctx.count("energy:" + cls.__name__)
+    # the same kick mask spelled as booleans, as 0/1 integers (list and array) and given through set_kick_vars after the method was chosen:
+    # one and the same map
+    for cls in [I.SymplecticEulerSolver, I.BABs9o7HSolver, I.ABAs5o6HSolver]:
+        for (hname, dof, gT, gV, H) in hamiltonians()[1:3]:
+            for ordering in ("block", "interleaved"):
+                rhs, mask, qi, pi = make_rhs(dof, gT, gV, ordering)
+                y0 = np.array([0.3, 0.2] if dof == 1 else ([0.12, 0.1, 0.12, -0.1] if ordering == "interleaved" else [0.12, 0.12, 0.1, -0.1]))
+                ends = {}
+                for spelling, mk in [("bool-array", np.array(mask, dtype=bool)), ("int-list", [int(bool(m)) for m in mask]), ("int-array", np.array(mask, dtype=np.int64)),
+                                     ("int32-array", np.array(mask, dtype=np.int32))]:
+                    for route in ("set_method", "set_kick_vars-after"):
+                        ode = de.OdeSystem(rhs, y0=y0.copy(), t=(0.0, 1.0), dt=0.1)
+                        try:
+                            if route == "set_method":
+                                ode.set_method(cls, staggered_mask=mk)
+                            else:
+                                ode.set_method(cls)
+                                ode.set_kick_vars(mk)
+                            ode.integrate()
+                            ends[(spelling, route)] = np.array(ode.y[-1])
+                        except Exception as e:
+                            ctx.oracle("mask-spelling-runs", False, dict(kind="mask-spelling", method=cls.__name__, spelling=spelling, route=route), what="raised %r" % (e,))
+                ref = ends.get(("bool-array", "set_method"))
+                for k, v in ends.items():
+                    dev = float(np.max(np.abs(v - ref))) if ref is not None else float("inf")
+                    ctx.oracle("kick-mask-spelling-irrelevant", dev <= 1e-13, dict(kind="mask-spelling", method=cls.__name__, hamiltonian=hname, ordering=ordering, spelling=k[0], route=k[1], deviation=dev),
+                               what="the run with the mask given as %s through %s ends %.2e away from the run with the boolean mask" % (k[0], k[1], dev))
+                ctx.count("mask-spelling:" + cls.__name__)
     # theorem kdk_modified_energy_invariant on the implementation: the shipped kick-drift-kick scheme conserves the modified energy
     # p^2 + (1 - h^2/4) q^2 of the harmonic oscillator exactly (to rounding), whatever the step and however long the run
     for h in (0.05, 0.5, 1.5, -0.25):
